@@ -207,7 +207,10 @@ func (iu IntervalUnit) String() string {
 func (iu IntervalUnit) Standard(t time.Time) time.Time {
 	switch iu {
 	case HOUR:
-		return time.Date(t.Year(), t.Month(), t.Day(), t.Hour(), 0, 0, 0, t.Location())
+		// Subtract the wall-clock minutes instead of rebuilding the instant from
+		// its wall-clock fields: time.Date cannot tell the two occurrences of a
+		// repeated (daylight-saving fall-back) hour apart.
+		return t.Add(-time.Duration(t.Minute())*time.Minute - time.Duration(t.Second())*time.Second - time.Duration(t.Nanosecond()))
 	case DAY:
 		return time.Date(t.Year(), t.Month(), t.Day(), 0, 0, 0, 0, t.Location())
 	}
@@ -254,10 +257,13 @@ func (ir IntervalRule) Standard(t time.Time) time.Time {
 		bucketIdx := floorDiv(days, int64(ir.Num))
 		return time.Date(1970, 1, 1+int(bucketIdx)*ir.Num, 0, 0, 0, 0, t.Location())
 	case HOUR:
-		todayHour := time.Date(t.Year(), t.Month(), t.Day(), t.Hour(), 0, 0, 0, t.Location())
+		todayHour := HOUR.Standard(t)
 		hours := floorDiv(int64(todayHour.Sub(epochLocal)), int64(time.Hour))
 		bucketIdx := floorDiv(hours, int64(ir.Num))
-		return time.Date(1970, 1, 1, int(bucketIdx)*ir.Num, 0, 0, 0, t.Location())
+		// NextTime advances by absolute hours, so the grid must be absolute as
+		// well: rebuilding the bucket start from wall-clock fields shifts it by
+		// the daylight-saving offset and yields a bucket that does not contain t.
+		return epochLocal.Add(time.Duration(bucketIdx*int64(ir.Num)) * time.Hour)
 	}
 	panic("invalid interval unit")
 }
